@@ -223,6 +223,35 @@ func mixedVictimScenarios(tier string) []clustermc.Scenario {
 	return wlScenariosRange(menu, lay, qsets, []schedrun.Config{{}, {ConsolidatingReclaim: true}, {SaturationMultiplier: "1.5", ConsolidatingReclaim: true}}, 4, kMax)
 }
 
+// bigVictimGangScenarios: a GANG reclaimer of 1-GPU pods against victims of 2 GPUs in the other
+// department: the victim recorded for the gang's first pod already frees the room for the second, so a
+// solver can finish the gang without looking for new victims - while the reclaimer's DEPARTMENT, whose
+// leaves' quotas over-subscribe it, is within its fair share with one pod of the gang and above it with two.
+func bigVictimGangScenarios(tier string) []clustermc.Scenario {
+	menu := []wlItem{
+		{"run-g1-np-a2", world.WL{Queue: "a2", PC: "p100", Pods: pods(1, shG1, world.StRunning, "n1")}},
+		{"run-g2-b1", world.WL{Queue: "b1", Pods: pods(1, shG2, world.StRunning, "n1")}},
+		{"run-g1-np-b1", world.WL{Queue: "b1", PC: "p100", Pods: pods(1, shG1, world.StRunning, "n1")}},
+		{"run-g1-b1", world.WL{Queue: "b1", Pods: pods(1, shG1, world.StRunning, "n1")}},
+		{"pend-gang2-a1", world.WL{Queue: "a1", MinMember: 2, Pods: pods(2, shG1, "", "")}},
+		{"pend-gang3-a1", world.WL{Queue: "a1", MinMember: 3, Pods: pods(3, shG1, "", "")}},
+	}
+	u := world.QUnlimited()
+	var qsets []queueSetup
+	for _, w := range []float64{0, 1} {
+		w := w
+		g := func(q float64) world.QRes { return world.QRes{Quota: q, Limit: -1, Weight: w} }
+		qsets = append(qsets, queueSetup{name("biggang-dA2(a1q2,a2q1)-dB2(b1q2)-w", []int{int(w)}), func(b *world.Builder) {
+			for _, q := range []world.QueueOpt{{Name: "dA", GPU: g(2)}, {Name: "dB", GPU: g(2)}, {Name: "a1", Parent: "dA", GPU: g(2)}, {Name: "a2", Parent: "dA", GPU: g(1)}, {Name: "b1", Parent: "dB", GPU: g(2)}} {
+				q.CPU, q.Mem = u, u
+				b.Queue(q)
+			}
+		}})
+	}
+	lay := []nodeLayout{{"1n-4gpu", []world.NodeOpt{{Name: "n1", CPU: "16", Mem: "32Gi", GPUs: 4, GPUMemMiB: 40000}}}}
+	return wlScenariosRange(menu, lay, qsets, []schedrun.Config{{}, {ConsolidatingReclaim: true}, {SaturationMultiplier: "1.5", ConsolidatingReclaim: true}}, 3, 5)
+}
+
 func C07() *clustermc.Family {
 	return &clustermc.Family{
 		Property: "C07",
@@ -232,7 +261,7 @@ func C07() *clustermc.Family {
 				{"2n-3+1gpu", []world.NodeOpt{{Name: "n1", CPU: "16", Mem: "32Gi", GPUs: 3, GPUMemMiB: 40000}, {Name: "n2", CPU: "16", Mem: "32Gi", GPUs: 1, GPUMemMiB: 40000}}},
 			}
 			cfgs := []schedrun.Config{{}, {SaturationMultiplier: "1.5", ConsolidatingReclaim: true}}
-			return append(append(append(append(wlScenarios(tier, reclaimMenu(), lay, reclaimQueues(), cfgs, 3, 4), crossDeptScenarios(tier)...), multiReclaimerScenarios(tier)...), unbalancedTreeScenarios(tier)...), mixedVictimScenarios(tier)...)
+			return append(append(append(append(wlScenarios(tier, reclaimMenu(), lay, reclaimQueues(), cfgs, 3, 4), crossDeptScenarios(tier)...), multiReclaimerScenarios(tier)...), unbalancedTreeScenarios(tier)...), append(mixedVictimScenarios(tier), bigVictimGangScenarios(tier)...)...)
 		},
 		Depth: func(tier string) int {
 			if tier == "thorough" {
